@@ -764,6 +764,9 @@ func runC19(c *CaseCtx) (res CaseResult) {
 	if c.Idx%10 == 9 {
 		return runLiveGraph(c, r, "C19")
 	}
+	if c.Idx%30 == 7 {
+		return runC19NilVertex(c, r)
+	}
 	vm := &vertexMaker{kind: r.Intn(nVertexKinds)}
 	nv := 2 + r.Intn(5)
 	nops := 1 + r.Intn(60)
